@@ -61,6 +61,8 @@ ROWS = [
     ('VENMO.*\U0001F355', 'Pizza Pal', 'Food', 'Pizza', 'pizza'),                   # 39: a character outside the Basic Multilingual Plane in the pattern
     ('CAF\u00c9|CR\u00c8ME', 'Cafe', 'Food', 'Coffee', ''),                          # 40: non-ASCII letters
     ('VENMO', 'Venmo', 'Transfer', 'P2P', ''),                                     # 41
+    ('contains("NETFLIX")', 'Netflix Expr', 'Subs', 'Stream', 'x'),                 # 42: a CSV pattern that is an expression
+    ('startswith("COSTCO") and amount > 100[month=1]', 'Costco Jan', 'Shopping', 'Bulk', ''),   # 43: an expression pattern with a modifier
 ]
 DESCS = ['NETFLIX.COM', 'COSTCO WHOLESALE', 'UBER EATS ORDER', 'UBER TRIP', 'SHELL OIL', 'SHELLFISH BAR', 'AMAZON MKTP', 'RENT PAYMENT', 'GYM CLUB', 'TAX OFFICE',
          'BDAY CAKE', 'RECENT THING', 'SAY "HI" STORE', 'A.B\\C LTD', 'TAGGED ITEM', 'GREEN TEA', 'Mixed Case', 'BIG BUY', 'WIRE IN', "O'BRIEN", 'DUP', '#HASH TAG',
@@ -209,7 +211,7 @@ def main():
         for i in range(n):
             check([i])
         # rule files with several rows (order and interaction: first match, duplicates, tag accumulation)
-        groups = [[1, 2], [2, 1], [3, 4], [4, 3], [6, 7, 8], [8, 7, 6], [22, 23], [23, 22], [16, 0], [0, 16, 17], [10, 9, 0], [19, 20, 21], [28, 29, 30], [30, 29, 28], [34, 0], [35, 0], [0, 35, 2], [36, 0], [37, 0], [0, 37], [38, 0], [34, 35, 36, 37, 0], [39, 41], [41, 39], [40, 0],
+        groups = [[1, 2], [2, 1], [3, 4], [4, 3], [6, 7, 8], [8, 7, 6], [22, 23], [23, 22], [16, 0], [0, 16, 17], [10, 9, 0], [19, 20, 21], [28, 29, 30], [30, 29, 28], [34, 0], [35, 0], [0, 35, 2], [36, 0], [37, 0], [0, 37], [38, 0], [34, 35, 36, 37, 0], [39, 41], [41, 39], [40, 0], [42, 0], [43, 2], [2, 43],
                   [0, 1, 2, 3, 4, 6, 7, 8, 9, 10, 11, 12, 17, 19, 20, 21, 22, 23, 24]]
         for g in groups:
             check(g)
